@@ -277,6 +277,9 @@ def field_mutations(r, rng, per_field=None, roles=None):
         if roles and role not in roles:
             continue
         vals = BOUNDARY if per_field is None else rng.sample(BOUNDARY, per_field)
+        if role in ("size", "largesize"):
+            # box sizes: every boundary value and every small size around the fixed parts of the boxes
+            vals = BOUNDARY + [9, 10, 11, 12, 13, 14, 17, 20, 24, 27, 28, 29, 32, 36, 40, 44]
         for v in vals:
             vv = v % (1 << (8 * width))
             if data[off:off + width] == vv.to_bytes(width, "big"):
